@@ -143,7 +143,7 @@ func selection(c *core.Ctx, rec, node *core.Fn, trueNil bool) {
 		c.Undecidedf("R1.select", name+"/probe", fn.Decl.Pos(), "expected one call of getRedisNodeState, found %d", len(calls))
 		return
 	}
-	pp, _ := g.Find(calls[0])
+	pp, _ := tt.Find(g, calls[0])
 	pas, ok := pp.Node().(*ast.AssignStmt)
 	loop := x.LoopOf(calls[0]) // a range loop or a counting loop over the host list
 	hostList, isElem := tt.LoopElem(info, loop)
@@ -265,7 +265,7 @@ func selection(c *core.Ctx, rec, node *core.Fn, trueNil bool) {
 		rflag, rres = nil, nil
 		rg := recView.G
 		rx = recView.X(c.Program)
-		vp, _ := rg.Find(viaCall)
+		vp, _ := tt.Find(rg, viaCall)
 		if vas, ok := vp.Node().(*ast.AssignStmt); ok && len(vas.Rhs) == 1 {
 			core.Inspect(body, func(n ast.Node) bool {
 				if r, ok := n.(*ast.ReturnStmt); ok && len(r.Results) == len(vas.Lhs) {
@@ -443,7 +443,7 @@ func selection(c *core.Ctx, rec, node *core.Fn, trueNil bool) {
 	c.Check("R4.probe", name+"/no-early-exit", loop.Pos(), earlyExit == nil, "the probing loop must visit every node: with a break/return inside the loop the nodes after the first master are not listed as replicas", earlyExit...)
 
 	// the host list: Source followed by all Slaves of the supervisor's slot
-	items, okItems := hostItems(info, body, hostList, 3)
+	items, okItems := hostItems(info, body, loop, hostList, 3)
 	if okItems && len(items) == 2 && items[0] == "Source" && items[1] == "Slaves..." {
 		c.Okf("R4.probe", name+"/host-list", loop.Pos(), "the probed hosts are the known Source followed by all known Slaves")
 	} else {
@@ -454,7 +454,7 @@ func selection(c *core.Ctx, rec, node *core.Fn, trueNil bool) {
 // hostItems evaluates a []string expression built with literals and append from the fields of
 // s.slot: "Source", "Slaves..." in order. Locals are followed through their definitions when these
 // are top-level statements of the function that precede the loop.
-func hostItems(info *types.Info, body *ast.BlockStmt, e ast.Expr, depth int) ([]string, bool) {
+func hostItems(info *types.Info, body *ast.BlockStmt, at ast.Node, e ast.Expr, depth int) ([]string, bool) {
 	field := func(e ast.Expr, spread bool) (string, bool) {
 		for _, f := range []string{"Source", "Slaves"} {
 			if b, ok := isNodeField(info, e, f); ok && core.IsFieldNamed(info, b, sup, "slot") && (f == "Slaves") == spread {
@@ -490,7 +490,7 @@ func hostItems(info *types.Info, body *ast.BlockStmt, e ast.Expr, depth int) ([]
 			if len(v.Args) == 0 {
 				return nil, false
 			}
-			out, ok := hostItems(info, body, v.Args[0], depth)
+			out, ok := hostItems(info, body, at, v.Args[0], depth)
 			if !ok {
 				return nil, false
 			}
@@ -510,13 +510,21 @@ func hostItems(info *types.Info, body *ast.BlockStmt, e ast.Expr, depth int) ([]
 		o := identObj(info, v)
 		var out []string
 		k := 0
+		// the constructs that enclose the probing loop as well (a retry loop around the whole attempt)
+		// enclose one execution of both the definition and the loop
+		shared := map[ast.Node]bool{}
+		if at != nil {
+			for _, anc := range core.PathTo(body, at) {
+				shared[anc] = true
+			}
+		}
 		for _, d := range tt.DefsOf(info, body, o) {
 			// every definition is executed unconditionally, once: no loop or branch around it
 			straight := true
 			for _, anc := range core.PathTo(body, d.Stmt) {
 				switch anc.(type) {
 				case *ast.IfStmt, *ast.SwitchStmt, *ast.TypeSwitchStmt, *ast.SelectStmt, *ast.ForStmt, *ast.RangeStmt, *ast.FuncLit:
-					if anc != d.Stmt {
+					if anc != d.Stmt && !shared[anc] {
 						straight = false
 					}
 				}
@@ -547,7 +555,7 @@ func hostItems(info *types.Info, body *ast.BlockStmt, e ast.Expr, depth int) ([]
 				}
 				continue
 			}
-			items, ok := hostItems(info, body, d.Rhs, depth-1)
+			items, ok := hostItems(info, body, at, d.Rhs, depth-1)
 			if !ok {
 				return nil, false
 			}
@@ -655,6 +663,25 @@ func syncOrder(c *core.Ctx, upd *core.Fn) {
 	g := view.G
 	isUpd := g.HasCall(func(_ *ast.CallExpr, callee types.Object) bool { return callee == types.Object(upd.Obj) })
 	if len(g.Points(isUpd)) == 0 {
+		// deferred: the refresh runs when Sync returns, after everything that uses the source address
+		var deferred *ast.DeferStmt
+		ast.Inspect(view.Body, func(n ast.Node) bool {
+			if _, isLit := n.(*ast.FuncLit); isLit {
+				return false
+			}
+			if d, ok := n.(*ast.DeferStmt); ok && core.Callee(info, d.Call) == types.Object(upd.Obj) {
+				deferred = d
+			}
+			return true
+		})
+		if deferred != nil {
+			c.Failf("R5.start", "Sync/refresh-before-use", deferred.Pos(), "updateSlotTopology is deferred: it runs when Sync() returns, after the source address has been used; PSYNC goes to the node recorded before the re-discovery")
+			return
+		}
+		if tt.ReachesFunc(c.Program, info, sync.Decl.Body, upd.Obj, 3) {
+			c.Undecidedf("R5.start", "Sync/refresh-before-use", sync.Decl.Pos(), "updateSlotTopology is used through a helper or a function value: the order is not analysed in that form")
+			return
+		}
 		c.Failf("R5.start", "Sync/refresh-before-use", sync.Decl.Pos(), "Sync() never calls updateSlotTopology: the source of a cluster shard is never re-discovered, PSYNC goes to the node recorded at start-up even after it became a replica")
 		return
 	}
